@@ -1094,3 +1094,77 @@ V('dispatch-crossed', 'C04', 'breaking',
         elif isinstance(value, int):
             return self.cofactor(u, d)""")],
   'R-DISPATCH/arms/dd.bdd.BDD.let', 'arms exchanged')
+
+# ---------------------------------------------------------------- R-GRAMMAR
+PR = 'dd/_parser.py'
+V('grammar-arrow-to-equiv', 'C05', 'breaking',
+  [(PR, """          =>
+        | \\->
+        \"\"\"""", """          =>
+        \"\"\""""),
+   (PR, """          <=>
+        | <\\->
+        \"\"\"""", """          <=>
+        | <\\->
+        | \\->
+        \"\"\"""")],
+  'R-GRAMMAR/', "'->' lexed as equivalence")
+V('grammar-token-value', 'C05', 'breaking',
+  [(PR, "        token.value = '<->'\n", "        token.value = '#'\n")],
+  'R-GRAMMAR/token-value/dd._parser.Lexer.t_EQUIV', 'EQUIV hands # to apply')
+V('grammar-precedence-swap', 'C05', 'breaking',
+  [(PR, """            ('left',
+                'OR'),
+            ('left',
+                'AND'),""", """            ('left',
+                'AND'),
+            ('left',
+                'OR'),""")],
+  'R-GRAMMAR/precedence', 'and binds weaker than or')
+V('grammar-right-assoc', 'C05', 'breaking',
+  [(PR, """            ('left',
+                'IMPLIES'),""", """            ('right',
+                'IMPLIES'),""")],
+  'R-GRAMMAR/precedence', 'implication right-associative')
+V('grammar-binary-operands', 'C05', 'breaking',
+  [(PR, """        p[0] = self._apply(
+            p[2], p[1], p[3])""", """        p[0] = self._apply(
+            p[2], p[3], p[1])""")],
+  'R-GRAMMAR/action/dd._parser.Parser.p_binary', 'operands exchanged')
+V('grammar-ite-operands', 'C05', 'breaking',
+  [(PR, "            p[1], p[3], p[5], p[7])", "            p[1], p[3], p[7], p[5])")],
+  'R-GRAMMAR/action/dd._parser.Parser.p_ternary_conditional', 'then/else exchanged')
+V('grammar-forall-test', 'C05', 'breaking',
+  [(PR, "                forall = (operator == r'\\A')", "                forall = (operator == r'\\E')")],
+  'R-GRAMMAR/translator', 'quantifier kinds exchanged')
+V('grammar-rename-direction', 'C05', 'breaking',
+  [(PR, """                    k.value: v.value
+                    for k, v in subs}""", """                    v.value: k.value
+                    for k, v in subs}""")],
+  'R-GRAMMAR/translator', 'renaming new->old')
+V('grammar-subst-pair', 'C05', 'breaking',
+  [(PR, "        p[0] = (old, new)", "        p[0] = (new, old)")],
+  'R-GRAMMAR/action/dd._parser.Parser.p_substitution', 'pair orientation')
+V('grammar-reserved-crossed', 'C05', 'breaking',
+  [(PR, """            'False':
+                'FALSE',""", """            'False':
+                'TRUE',""")],
+  'R-GRAMMAR/reserved', 'False reads as TRUE')
+V('grammar-shadow', 'C05', 'breaking',
+  [(PR, "    t_MINUS = r' \\- '", "    t_MINUS = r' \\-  >? '")],
+  None, "string rule cannot shadow the function rule for '->' (function rules first)")
+VARIANTS[-1]['kind'] = 'benign'
+V('grammar-printer-token', 'C05', 'breaking',
+  [(B, "            return 'FALSE'\n        if u in cache:", "            return 'false'\n        if u in cache:"),
+   (B, "        if p == 'FALSE' and q == 'TRUE':", "        if p == 'false' and q == 'TRUE':")],
+  'R-FORMAT/printer-tokens', 'printer emits a spelling the lexer reads as a name')
+V('grammar-benign-new-alias', 'C05', 'benign',
+  [(PR, """          \\&\\&
+        | \\&
+        | /\\\\
+        \"\"\"""", """          \\&\\&
+        | \\&
+        | /\\\\
+        | \\*
+        \"\"\"""")],
+  None, 'an extra spelling of AND')
